@@ -522,7 +522,11 @@ class InterpolatableFunction(ABC):
         ## type the function uses
         if xEvaluateRegion.size > 0:
             results[needsEvaluationCondition] = helpers.derivative(
-                self._evaluateOutOfBounds, x, n=order, epsilon=epsilon, scale=scale
+                self._evaluateOutOfBounds,
+                xEvaluateRegion,
+                n=order,
+                epsilon=epsilon,
+                scale=scale,
             )
 
         return results
